@@ -128,7 +128,16 @@ def has_safe_repr(value: t.Any) -> bool:
     if value is None or value is NotImplemented or value is Ellipsis:
         return True
 
-    if type(value) in {bool, int, range, str, Markup}:
+    if type(value) in {bool, range, str, Markup}:
+        return True
+
+    if type(value) is int:
+        # Python limits the number of digits it converts to a string
+        try:
+            repr(value)
+        except ValueError:
+            return False
+
         return True
 
     # inf and nan have no literal, their repr is a name
@@ -1708,7 +1717,11 @@ class CodeGenerator(NodeVisitor):
             if rv in ("inf", "-inf", "nan"):
                 rv = f"float({rv!r})"
         else:
-            rv = repr(val)
+            try:
+                rv = repr(val)
+            except ValueError:
+                # an int above Python's limit for conversion to decimal
+                rv = hex(val)
         # a negative number (for example a folded unary minus) must stay
         # one operand, "-5 ** x" would be read as "-(5 ** x)" by Python
         if rv.startswith("-"):
